@@ -21,6 +21,13 @@ def render_row(cells):
     return buf.getvalue()
 
 
+def dataset_desc(wl):
+    """dataset_desc.json of an ob-csv source (column names and types come from here)"""
+    import json
+    fl = set(wl.get('float_cols') or [])
+    return json.dumps({'data_features': [{'name': n, 'type': 'Float' if n in fl else 'String'} for n in wl['header']]})
+
+
 def render(wl):
     eol = wl.get('eol', '\n')
     parts = [','.join(wl['header'])]
@@ -51,7 +58,11 @@ def _name(rng, used):
 
 
 def gen_column(rng, n, label_vals, kind=None):
-    kind = kind or rng.choice(['lowcard', 'lowcard', 'lowcard', 'midcard', 'id', 'constant', 'sparse', 'numeric', 'noisy-label', 'balanced-binary'])
+    kind = kind or rng.choice(['lowcard', 'lowcard', 'lowcard', 'midcard', 'id', 'constant', 'sparse', 'numeric', 'noisy-label', 'balanced-binary', 'multi'])
+    if kind == 'multi':
+        toks = [_word(rng, 1, 3, 0) for _ in range(rng.randrange(2, 6))]
+        sep = rng.choice(['-', ','])
+        return [sep.join(rng.sample(toks, rng.randrange(1, min(3, len(toks)) + 1))) if rng.random() > 0.1 else '' for _ in range(n)], kind
     if kind == 'constant':
         v = _word(rng)
         return [v] * n, kind
